@@ -21,7 +21,7 @@ use std::sync::{Mutex, OnceLock};
 
 pub const META: Meta = Meta {
     level: "fault_enumeration",
-    rule: "per key type (ed25519, secp256k1, ecdsa, rsa-2048): signatures over 3 messages (empty, 1 byte, 64 bytes): every 1-bit flip / truncation / 1-byte extension of the message and every single-byte xor (8 one-bit masks quick, all 255 thorough) / truncation / extension of the signature, every other message, every other key; envelopes: 4 signing (domain,type) pairs x 7 domains x 6 payload types; every single-byte substitution (255 values; rsa/ecdsa/secp256k1: 8 one-bit masks + 0xff in quick), truncation and extension of the encoded peer-record envelope in legacy and interop format; structural peer-record cases (other signer, crossed domain/type, garbage peer id / address); boundary shifting: for 5 signed triples (domain, type, payload) per key type (two generic, legacy and interop peer records, with interior bytes chosen so that collisions exist) and every framing mistake (each subset of the three length prefixes missing from the signed bytes; ed25519 all 7, other keys 3), every re-parsing of the mis-framed concatenation into a different triple (boundaries moved by up to 8 bytes beyond each field), in both directions (signed for X presented as Y, signed for Y presented as X). Non-trivial = distinct mutated or mismatching cases (everything except the untouched baselines).",
+    rule: "per key type (ed25519, secp256k1, ecdsa, rsa-2048): signatures over 3 messages (empty, 1 byte, 64 bytes): every 1-bit flip / truncation / 1-byte extension of the message and every single-byte xor (8 one-bit masks quick, all 255 thorough) / truncation / extension of the signature, every other message, every other key; envelopes: 4 signing (domain,type) pairs x 7 domains x 6 payload types; every single-byte substitution (255 values; rsa/ecdsa/secp256k1: 8 one-bit masks + 0xff in quick), truncation and extension of the encoded peer-record envelope in legacy and interop format; structural peer-record cases (other signer, crossed domain/type, garbage peer id / address); correctly signed envelopes (right domain, type and key, both formats) whose hand-built record names a variant of the signer's own peer id (multihash code re-labelled 0x00<->0x12 / 0x11 / 0x13 over the same digest, SHA-256 of the key under either code, digest shorter / longer / last bit flipped, length byte changed, truncated, extended, empty); boundary shifting: for 5 signed triples (domain, type, payload) per key type (two generic, legacy and interop peer records, with interior bytes chosen so that collisions exist) and every framing mistake (each subset of the three length prefixes missing from the signed bytes; ed25519 all 7, other keys 3), every re-parsing of the mis-framed concatenation into a different triple (boundaries moved by up to 8 bytes beyond each field), in both directions (signed for X presented as Y, signed for Y presented as X). Non-trivial = distinct mutated or mismatching cases (everything except the untouched baselines).",
     explanation: "Fault enumeration (E3) on recorded artefacts. Oracle: verify is true exactly for the untouched (message, signature, key); payload_and_signing_key succeeds exactly for the signing (domain, type) — in particular never for a triple obtained by moving bytes across the domain/type/payload boundaries; a mutated envelope is rejected at decoding, at verification, or yields exactly the original record content; a record whose peer id is not the signer's is rejected; no panic.",
     assumptions: &["cryptographic primitives are trusted; manipulations are enumerated, not computational", "signatures of all four schemes are deterministic (EdDSA, RFC 6979, PKCS#1 v1.5), so cases replay byte for byte"],
 };
@@ -455,6 +455,57 @@ fn rec_case(c: &Value) -> Result<&'static str, String> {
             let (d, t) = fmt_consts(if variant.ends_with("legacy") { 0 } else { 1 });
             reject_both(build(&signer, d, t, good)?, "record-accepted-with-foreign-peer-id")
         }
+        v if v.starts_with("pid-") => {
+            // a correctly signed envelope (right domain and type, signer's own key) whose record
+            // names a peer id that is a *variant* of the signer's id: accepted => peer_id() == signer
+            let idb = me.to_bytes();
+            let (code, digest) = (idb[0], idb[2..].to_vec());
+            let mh = |c: u8, d: &[u8]| {
+                let mut x = vec![c, d.len() as u8];
+                x.extend_from_slice(d);
+                x
+            };
+            let fmt = if v.ends_with("-interop") { 1 } else { 0 };
+            let name = v.trim_start_matches("pid-").trim_end_matches("-interop").trim_end_matches("-legacy");
+            let pid: Vec<u8> = match name {
+                "relabel" => mh(if code == 0 { 0x12 } else { 0x00 }, &digest),
+                "relabel-sha1" => mh(0x11, &digest),
+                "relabel-sha512" => mh(0x13, &digest),
+                "digest-shorter" => mh(code, &digest[..digest.len() - 1]),
+                "digest-longer" => mh(code, &[digest.as_slice(), &[0]].concat()),
+                "digest-last-bit" => {
+                    let mut d = digest.clone();
+                    *d.last_mut().unwrap() ^= 1;
+                    mh(code, &d)
+                }
+                "relabel-sha256-of-key" => mh(0x12, &keys::sha256(&kp.public().encode_protobuf())),
+                "relabel-identity-of-hash" => mh(0x00, &keys::sha256(&kp.public().encode_protobuf())),
+                "length-byte-only" => {
+                    let mut x = idb.clone();
+                    x[1] = x[1].wrapping_sub(1);
+                    x
+                }
+                "truncated" => idb[..idb.len() - 1].to_vec(),
+                "extended" => [idb.as_slice(), &[0]].concat(),
+                "empty" => vec![],
+                _ => return Err("bad case".into()),
+            };
+            if pid == idb {
+                return Ok("noop");
+            }
+            let (d, t) = fmt_consts(fmt);
+            let e = build(&kp, d, t, record_payload(&pid, &a))?;
+            let (l, i) = both(e)?;
+            for r in [&l, &i] {
+                if let Ok(r) = r {
+                    if r.peer_id() != me {
+                        return Err(format!("record-peer-id-not-signer :: {name} {variant}: record accepted with peer_id() = {} (bytes {}), the envelope was signed by {me}", r.peer_id(), hex(&pid)));
+                    }
+                    return Err(format!("record-accepted-with-variant-peer-id :: {name} {variant}: peer id bytes {} accepted", hex(&pid)));
+                }
+            }
+            Ok("record-rejected")
+        }
         "garbage-peer-id" => reject_both(build(&kp, LEGACY_DOMAIN, LEGACY_TYPE, record_payload(&[0x12, 0x05, 1, 2], &a))?, "record-accepted-with-garbage-peer-id"),
         "empty-peer-id" => reject_both(build(&kp, STD_DOMAIN, STD_TYPE, record_payload(&[], &a))?, "record-accepted-with-garbage-peer-id"),
         "garbage-address" => reject_both(build(&kp, LEGACY_DOMAIN, LEGACY_TYPE, record_payload(&me.to_bytes(), &[vec![0xff, 0xff, 0x01]]))?, "record-accepted-with-garbage-address"),
@@ -480,7 +531,7 @@ fn rec_case(c: &Value) -> Result<&'static str, String> {
     }
 }
 
-const REC_VARIANTS: [&str; 14] = [
+const REC_VARIANTS: [&str; 38] = [
     "honest-legacy",
     "honest-interop",
     "crossed-domain-type-a",
@@ -495,6 +546,30 @@ const REC_VARIANTS: [&str; 14] = [
     "garbage-address",
     "garbage-payload",
     "new-api",
+    "pid-relabel-legacy",
+    "pid-relabel-interop",
+    "pid-relabel-sha1-legacy",
+    "pid-relabel-sha1-interop",
+    "pid-relabel-sha512-legacy",
+    "pid-relabel-sha512-interop",
+    "pid-digest-shorter-legacy",
+    "pid-digest-shorter-interop",
+    "pid-digest-longer-legacy",
+    "pid-digest-longer-interop",
+    "pid-digest-last-bit-legacy",
+    "pid-digest-last-bit-interop",
+    "pid-relabel-sha256-of-key-legacy",
+    "pid-relabel-sha256-of-key-interop",
+    "pid-relabel-identity-of-hash-legacy",
+    "pid-relabel-identity-of-hash-interop",
+    "pid-length-byte-only-legacy",
+    "pid-length-byte-only-interop",
+    "pid-truncated-legacy",
+    "pid-truncated-interop",
+    "pid-extended-legacy",
+    "pid-extended-interop",
+    "pid-empty-legacy",
+    "pid-empty-interop",
 ];
 
 fn run_case(c: &Value) -> Result<&'static str, String> {
@@ -630,7 +705,7 @@ pub fn run(ctx: &Ctx) -> Outcome {
             ("shift_shift-rejected", 100),
             ("shift_shift-rejected-record-type", 8),
             ("rec_record-accepted", 12),
-            ("rec_record-rejected", 40),
+            ("rec_record-rejected", 120),
             ("env_baseline-accepted", 8),
             ("env_rejected-at-decode", 1),
             ("env_rejected-signature", 1),
